@@ -149,6 +149,12 @@ def run(ctx):
         suites.run_resolve_case(ctx, 'resolve', case, oracle=oracle)
 
 
+def corpus_case(ctx, payload):
+    case = payload.get('case', {})
+    if isinstance(case, dict) and 's' in case and case.get('kind') != 'compat':
+        suites.run_resolve_case(ctx, 'corpus', case, oracle=oracle)
+
+
 def replay(payload):
     case = payload['case']
     ctx = __import__('check').Ctx(PROP, 'quick', 0)
